@@ -4,10 +4,10 @@ package main
 
 import (
 	"fmt"
-	"regexp"
 	"go/ast"
 	"go/token"
 	"go/types"
+	"regexp"
 	"sort"
 	"strings"
 )
